@@ -9,9 +9,10 @@ Decides over the persistence functions reachable from Database::load / load_bina
       every iteration path (so it stops at end of file) or its bound is validated (compared, with an error exit)
       before the loop;
  (R4) the readers reachable from the loaders are not recursive without a depth limit.
+The SQL-dump path is covered as far as the file itself is handled: read_sql_dump (format sniffing), parse_sql_statements (the
+splitter), load_sql_dump and its error reporting, and the row normalisation that every loaded row passes (R1 applies to them).
 Does NOT decide serde_json / zstd internals (a zstd frame can legitimately expand far beyond the file size:
-reported in the evidence, not as a violation) nor the SQL-dump path (statements of a dump are parsed and executed:
-C23 / C24)."""
+reported in the evidence, not as a violation) nor parsing and execution of the statements of a dump (C23 / C24)."""
 import re
 from ..engine.facts import callee_name
 from ..engine.callgraph import CallGraph
@@ -22,7 +23,7 @@ from ..engine.paths import loop_headers, exit_classes
 from .C23 import _const_nonzero_arg, _has_depth_guard
 from . import shared
 
-UNITS = {'vibesql_storage', 'vibesql_types', 'vibesql_catalog', 'vibesql_ast'}
+UNITS = {'vibesql_storage', 'vibesql_types', 'vibesql_catalog', 'vibesql_ast', 'vibesql_executor'}
 P = 'vibesql_storage::persistence::'
 REVIEWED = {
     (P + 'binary::data::read_data', 'alloc', 'alloc::vec::Vec::with_capacity'):
@@ -40,6 +41,13 @@ def run(ctx):
     reach = cg.reach([f.path for f in entries])
     fns = [prog.fns[p] for p in reach if p in prog.fns and not shared.is_test(prog.fns[p]) and prog.fns[p].nice.startswith(P)]
     ctx.floor('persistence functions reachable from the loaders', len(fns), 100)
+    # the SQL-dump path: the functions that read the file, sniff its format, split it into statements and report a failing statement
+    # (parsing and executing the statements themselves is C23 / C24), and the row normalisation every loaded row goes through
+    dump = [f for f in prog.fns.values() if not shared.is_test(f) and not f.is_closure() and f.dk != 'Promoted' and
+            (f.nice.startswith('vibesql_storage::persistence::load::') or f.nice.startswith('vibesql_executor::persistence::')
+             or (f.nice.startswith('vibesql_storage::table::normalization::') and f.path in reach))]
+    ctx.floor('SQL-dump readers and row normalisation functions', len(dump), 6)
+    fns = fns + [f for f in dump if f not in fns]
     ctx.extra['entries'] = sorted(f.nice for f in entries)
 
     # ------------------------------------------------------------------ R1
